@@ -40,7 +40,7 @@ func c15Specs() []*edt.Spec {
 		// --- challenge: suite ‖ 0x02 ‖ [Y] ‖ H ‖ Gamma ‖ U ‖ V ‖ 0x00, truncated to 16 bytes -------------
 		{
 			Pkg: "primitives/ed25519/extra/ecvrf", Func: "challengeGeneration", MinPaths: 2,
-			Vars:         map[string]string{"(0 < len($p1))": "withY"},
+			Vars:         map[string]string{"(len($p1) == 0)": "!withY"},
 			AssumePrefix: cantFail,
 			Classify: func(p *edt.Path, out string, e *edt.Env) string {
 				switch out {
